@@ -37,7 +37,7 @@ import (
 //   reset <cbPending> <defaultPending> <b:e:n,..> <p2w:owner,..>        parameters + program table
 //   block <id> <parent> <height> T<c> C | S<asset>,<amt> | I<kind>,<out>,<okind>,<asset>,<amt>,<prog>,<vote>,<gk>,<gh> | O<out>,<kind>,<asset>,<amt>,<prog>,<vote> ...
 //   attach <id> | detach <id>
-//   impl line (attach/detach): ok|skip [valid=1 novote=b] st=<workH>,<work>,<bestH>,<best> utxos=<out>:<asset>:<amt>:<prog>:<vote>:<acct>:<validHeight>;...
+//   impl line (attach/detach): ok|skip [valid=1 gvalid=1 novote=b] st=<workH>,<work>,<bestH>,<best> utxos=<out>:<asset>:<amt>:<prog>:<vote>:<acct>:<validHeight>;...
 //
 // Direct oracles (no model):
 //   C24  after every attach/detach the wallet's UTXO records (all fields but ValidHeight)
@@ -585,7 +585,7 @@ func (s *w24) exec(line string) {
 				if b.ownedVote {
 					nv = 0
 				}
-				result = fmt.Sprintf("ok valid=1 novote=%d ", nv)
+				result = fmt.Sprintf("ok valid=1 gvalid=1 novote=%d ", nv)
 				s.c.Count("attach")
 			} else {
 				result = "skip "
